@@ -76,7 +76,17 @@ func (m c07mon) Check(s *sim.Sim, st *sim.Step) []*sim.Violation {
 	cin, uidIn := rec.CookiesIn["rm"], rec.SessIn["uid"]
 	puts := rmPuts(rec)
 	rotated := false
-	if s.RememberActive() && cin != "" && uidIn == "" && visibleToServer(cin) && rec.Panic == "" {
+	if rec.FaultsFired > 0 {
+		m.stats.Count("requests-with-injected-backend-fault")
+	}
+	if s.RememberActive() && cin != "" && uidIn == "" && visibleToServer(cin) && rec.Panic == "" && rec.FaultsFired > 0 {
+		// a backend failed in this request: the positive clauses (must re-authenticate, must delete)
+		// are suspended, the negative one is not
+		if c := s.Cookies[cin]; (c == nil || c.State == sim.Spent || c.State == sim.Dead) && st.UIDOut != "" && st.UIDOut != st.UIDIn && justify(s, st, st.UIDOut) == "" {
+			vs = append(vs, vio("C07", "dead-cookie-authenticated|during-backend-fault", "a dead or unknown remember cookie produced a session for %q while a backend call failed (%v)", st.UIDOut, rec.Calls))
+		}
+	}
+	if s.RememberActive() && cin != "" && uidIn == "" && visibleToServer(cin) && rec.Panic == "" && rec.FaultsFired == 0 {
 		c := s.Cookies[cin]
 		switch {
 		case c != nil && c.State == sim.Live:
@@ -112,6 +122,10 @@ func (m c07mon) Check(s *sim.Sim, st *sim.Step) []*sim.Violation {
 				vs = append(vs, vio("C07", "reauth-request-admitted-to-full-auth-route", "the request that was authenticated only by the remember cookie of %q was admitted to a route requiring FULL authentication", c.PID))
 			}
 		case c != nil && c.State == sim.Limbo:
+			// presented earlier in a request that did not complete: it may or may not still be live
+			if sim.SessPutAny(rec, "uid", c.PID) {
+				rotated = true
+			}
 		default:
 			why := "unknown"
 			if c != nil {
@@ -145,7 +159,7 @@ func (m c07mon) Check(s *sim.Sim, st *sim.Step) []*sim.Violation {
 	if asked(s, st) {
 		want++
 	}
-	if len(puts) > want {
+	if len(puts) > want && rec.FaultsFired == 0 {
 		vs = append(vs, vio("C07", "cookie-issued-without-being-asked|"+flowOf(s, rec), "%d remember cookie value(s) issued by %s %s although the user did not ask to be remembered (rotation=%v)", len(puts), rec.Method, rec.Target, rotated))
 	}
 	if asked(s, st) && len(puts) > 0 {
@@ -289,7 +303,7 @@ var c07PIDs = []string{"semi;colon@x.test", "two;;semis@x.test", "nul\x00byte@x.
 var c07Profile = &sim.Profile{
 	W: map[string]int{
 		"login": 24, "dropsid": 16, "visit": 18, "steal": 12, "logout": 5, "recover_start": 2, "recover_end": 3, "admin_updatepw": 2,
-		"oauth_start": 5, "oauth_cb": 6, "otp_login": 2, "otp_add": 2, "advance": 1, "raw": 2, "get": 2, "totp_validate": 2, "sms_validate": 2,
+		"oauth_start": 5, "oauth_cb": 6, "otp_login": 2, "otp_add": 2, "advance": 1, "raw": 2, "get": 2, "totp_validate": 2, "sms_validate": 2, "faultnext": 3,
 	},
 	Cls: map[string]map[string]int{
 		"login":       {"ok": 75, "wrong": 15, "near": 5, "empty": 5},
